@@ -104,12 +104,46 @@ class Body:
             out = [t['target']]
         elif k == 'switch':
             out = [b for _, b in t['targets']] + [t['otherwise']]
+            # a branch on a literal (`cfg!(debug_assertions)` inside debug_assert!, `if false`): only the taken edge exists
+            cv = self.const_switch(bi)
+            if cv is not None:
+                hit = [b for v, b in t['targets'] if v == cv]
+                out = hit[:1] if hit else [t['otherwise']]
         elif k in ('call', 'drop', 'assert'):
             if t.get('target') is not None:
                 out = [t['target']]
             if unwind and t.get('unwind') is not None:
                 out.append(t['unwind'])
         return out
+
+    def const_switch(self, bi):
+        """value of the switch operand of block bi when it is a local assigned a literal in the same block, else None"""
+        blk = self.blocks[bi]
+        d = blk['term'].get('discr') or {}
+        pl = d.get('m') or d.get('c')
+        if isinstance(d.get('k'), dict) and 'int' in d['k']:
+            return int(d['k']['int'])
+        if not pl or pl.get('p'):
+            return None
+        val = None
+        for st in blk['stmts']:
+            if st.get('k') == 'assign' and st['pl'].get('l') == pl['l']:
+                if not st['pl'].get('p') and st['rv'].get('rv') == 'use' and isinstance(st['rv']['op'].get('k'), dict) and 'int' in st['rv']['op']['k']:
+                    val = int(st['rv']['op']['k']['int'])
+                else:
+                    val = None
+        # the local must not be assigned anywhere else (a literal that is later overwritten is not a constant)
+        if val is not None:
+            for j, b2 in enumerate(self.blocks):
+                if j == bi:
+                    continue
+                for st in b2['stmts']:
+                    if st.get('k') == 'assign' and st['pl'].get('l') == pl['l']:
+                        return None
+                t2 = b2['term']
+                if t2.get('k') == 'call' and (t2.get('dest') or {}).get('l') == pl['l']:
+                    return None
+        return val
 
     def succ(self):
         if self._succ is None:
